@@ -11,6 +11,7 @@ import (
 	"time"
 
 	sdk "github.com/cosmos/cosmos-sdk/types"
+	banktypes "github.com/cosmos/cosmos-sdk/x/bank/types"
 	"pgregory.net/rapid"
 
 	"github.com/osmosis-labs/osmosis/osmomath"
@@ -815,6 +816,45 @@ func (s *Sim) AdvanceTime(rt *rapid.T) {
 	s.log("+%s", dt)
 }
 
+// RevertedTx sends a transaction of two messages whose second message fails after the first (a swap or a position
+// creation) has run: nothing of the first message may survive - in the stores (digest) or anywhere else (the following
+// steps run their oracles on whatever the rolled-back message left in memory).
+func (s *Sim) RevertedTx(rt *rapid.T) {
+	if len(s.Known) == 0 {
+		rt.Skip("no liquidity")
+	}
+	a := rapid.IntRange(0, NActors-1).Draw(rt, "actor")
+	var first sdk.Msg
+	if rapid.Bool().Draw(rt, "firstIsSwap") {
+		in, out := D0, D1
+		if rapid.Bool().Draw(rt, "oneForZero") {
+			in, out = D1, D0
+		}
+		first = &pmtypes.MsgSwapExactAmountIn{Sender: chain.Actor(a).String(), Routes: []pmtypes.SwapAmountInRoute{{PoolId: s.PoolID, TokenOutDenom: out}}, TokenIn: coin(in, s.swapAmount(rt, in)), TokenOutMinAmount: osmomath.OneInt()}
+	} else {
+		lo, hi := s.genTick(rt, "lower"), s.genTick(rt, "upper")
+		if lo == hi {
+			hi = lo + s.Spacing
+		}
+		if lo > hi {
+			lo, hi = hi, lo
+		}
+		first = &cltypes.MsgCreatePosition{PoolId: s.PoolID, Sender: chain.Actor(a).String(), LowerTick: lo, UpperTick: hi, TokensProvided: sdk.NewCoins(coin(D0, genAmount(rt, "amt0")), coin(D1, genAmount(rt, "amt1"))), TokenMinAmount0: osmomath.ZeroInt(), TokenMinAmount1: osmomath.ZeroInt()}
+	}
+	tooMuch, _ := new(big.Int).SetString("1000000000000000000000000000000000000000000000", 10) // 1e45, nobody holds it
+	second := &banktypes.MsgSend{FromAddress: chain.Actor(a).String(), ToAddress: chain.Actor((a + 1) % NActors).String(), Amount: sdk.NewCoins(coin(D0, tooMuch))}
+	d0 := s.C.Digest()
+	r := s.C.ExecTx(first, second)
+	if r.OK() {
+		rt.Fatalf("harness: a bank send of 1e45 succeeded")
+	}
+	if s.C.Digest() != d0 {
+		rt.Fatalf("a two-message transaction whose second message failed (%v) changed state [history %v]", r.Err, s.Hist)
+	}
+	s.class("reverted-two-message-tx")
+	s.log("revertedTx a%d %T + failing send", a, first)
+}
+
 // WrapLedger runs an action under the incentive ledger (no-op when the ledger is off): the state the accumulator
 // update of the step sees is read before the action, the ledger is advanced and the step's coin flows checked after it.
 func (s *Sim) WrapLedger(f func(*rapid.T)) func(*rapid.T) {
@@ -855,6 +895,7 @@ func (s *Sim) actions() map[string]func(*rapid.T) {
 		"time":             s.AdvanceTime,
 		"createLocked":     s.CreateLocked,
 		"equalize":         s.Equalize,
+		"revertedTx":       s.RevertedTx,
 		"beginUnlock":      s.BeginUnlock,
 	}
 }
